@@ -70,6 +70,8 @@ func NewSignerAndVerifier(cfg Config) (*Signer, *Verifier, error) {
 		}, &Verifier{
 			IrmaConfig: irmaConfig,
 			Templates:  contract.StandardContractTemplates,
+			// Production is set from the node's strict mode: only attributes of the production scheme manager are accepted
+			strictMode: cfg.Production,
 		}, nil
 }
 
